@@ -144,6 +144,8 @@ func c17Mutate(t *rapid.T, text string, other string) string {
 }
 
 var c17HostileLines = []string{
+	// null in every position a JSON value can take
+	"{\"tags\":[\"a\",null,\"b\"]}", "{\"n\":{\"l\":[[null]]}}", "[null]", "{\"a\":[null,{\"b\":null}],\"c\":null}", "null", "{\"a\":[],\"b\":{},\"c\":[{}]}", "{\"a\":[true,false,null,1.5,\"s\",[],{}]}",
 	strings.Repeat("[", 5000), strings.Repeat("{\"a\":", 3000), "{\"a\":1e999}", "{\"a\":99999999999999999999999999}", "{\"a\":-0}", "{\"a\":\"\\ud800\"}",
 	"{\"a\":1", "{\"\":\"\"}", "{\"a\":{\"a\":{\"a\":{\"a\":[[[[null]]]]}}}}", "a=\"unterminated", "=novalue", "a==b", "\"", "\xff\xfe\x00", strings.Repeat("x", 70000),
 	"k=" + strings.Repeat("v", 5000), "{\"_entry\":5}", "{\"_entry\":\"e\",\"bad key\":\"v\"}", "\x1b[", "\x1b[31", "1.2.3.4.5.6", ":::::", "::", "1:", "0.0.0.0/", "{{",
